@@ -48,6 +48,13 @@ pub struct IndexScenario {
    pub pool: usize,
    /// size of the pool that is current when the three indices are constructed
    pub construct_pool: usize,
+   /// 0: all three indices are constructed under `construct_pool`. 1: as in generated code, the
+   /// relation's stored index (constructed with the program value or left by an earlier run, under
+   /// `construct_pool`) becomes `delta`, while `total` and `new` are created inside run(), under the
+   /// pool the workers run in. 2: as a custom provider might, `total` under `construct_pool`,
+   /// `delta` and `new` under the workers' pool.
+   #[serde(default)]
+   pub split_construct: u8,
    pub rounds: Vec<Round>,
 }
 
@@ -523,6 +530,11 @@ fn run_typed<I: Idx + 'static>(sc: &IndexScenario) -> Result<(), Violation> {
    let construct = rayon_core::ThreadPoolBuilder::new().num_threads(sc.construct_pool).build().unwrap();
    let pool = rayon_core::ThreadPoolBuilder::new().num_threads(sc.pool).build().unwrap();
    let (mut new, mut delta, mut total) = construct.install(|| AssertSend((I::default(), I::default(), I::default()))).0;
+   match sc.split_construct {
+      1 => (new, total) = pool.install(|| AssertSend((I::default(), I::default()))).0,
+      2 => (new, delta) = pool.install(|| AssertSend((I::default(), I::default()))).0,
+      _ => {},
+   }
    let (mut m_new, mut m_delta, mut m_total): (Model, Model, Model) = Default::default();
    for (ri, round) in sc.rounds.iter().enumerate() {
       if round.redundant {
@@ -730,5 +742,6 @@ pub fn gen_scenario(rng: &mut vcorpus::val::Rng, thorough: bool) -> IndexScenari
    }
    let pool = *rng.pick(&[2usize, 2, 3, 4, 4, 8, 1]);
    let construct_pool = if rng.chance(700) { pool } else { *rng.pick(&[1usize, 2, 3, 4, 8]) };
-   IndexScenario { ty: ty.to_string(), pool, construct_pool, rounds }
+   let split_construct = if construct_pool != pool && rng.chance(600) { rng.range(1, 2) as u8 } else { 0 };
+   IndexScenario { ty: ty.to_string(), pool, construct_pool, split_construct, rounds }
 }
